@@ -380,7 +380,9 @@ pub fn decode_oid(c: &[u8]) -> Option<Vec<u64>> {
     for &b in c {
         v = (v << 7) | (b & 0x7f) as u128;
         if v > u64::MAX as u128 + 80 {
-            return None;
+            // arcs wider than 64 bits (e.g. UUID-based 2.25.x): saturate, so that the OID stays
+            // decodable and distinct from every ordinary OID
+            v = u64::MAX as u128 + 80;
         }
         if b & 0x80 == 0 {
             if first {
@@ -395,10 +397,7 @@ pub fn decode_oid(c: &[u8]) -> Option<Vec<u64>> {
                 arcs.push(r as u64);
                 first = false;
             } else {
-                if v > u64::MAX as u128 {
-                    return None;
-                }
-                arcs.push(v as u64);
+                arcs.push(v.min(u64::MAX as u128) as u64);
             }
             v = 0;
         }
